@@ -30,7 +30,7 @@ import (
 // manifest.Open, OpenWALStorage) and show the model state after all returned
 // calls (for an image cut inside a call: with or without that call).
 
-func init() { props["C21"] = sim.PropSpec{Gen: genC21, Exec: execC21} }
+func init() { props["C21"] = sim.PropSpec{Gen: genC21, Exec: execC21, NoShrink: noShrink} }
 
 type quietRaftLogger struct{}
 
@@ -355,7 +355,7 @@ func (w *c21World) call(name string, modelFn func() error, sutFn func() error) {
 		serr = perr
 	}
 	w.inflight = false
-	res.Trace.Add("call %s err=%v", name, serr)
+	res.Trace.Add("call %s err=%s", name, errS(serr))
 	if serr != nil {
 		res.Violate(w.step, "call_failed", map[string]string{"call": name}, "%s returned %v", name, serr)
 		// The model keeps the call: a failed persist would stop the peer anyway.
